@@ -34,7 +34,17 @@ def task_calls_behaviours(job):
     return out
 
 
-TASKS = {"verify_cases": task_verify_cases, "canon_cases": task_canon_cases, "calls_behaviours": task_calls_behaviours}
+def task_inplace_cases(job):
+    from .props import c11
+    return c11.task_inplace_cases(job)
+
+
+def task_builder_defaults(job):
+    from .props import c16
+    return c16.task_builder_defaults(job)
+
+
+TASKS = {"builder_defaults": task_builder_defaults, "inplace_cases": task_inplace_cases, "verify_cases": task_verify_cases, "canon_cases": task_canon_cases, "calls_behaviours": task_calls_behaviours}
 
 
 def main():
